@@ -292,6 +292,45 @@ pub fn check(thorough: bool, _seed: u64) -> Check {
     let long_sizes: Vec<usize> = if thorough { vec![10, 17, 33, 64, 65, 66, 70, 100, 129, 257] } else { vec![10, 33, 64, 65, 70, 100, 129] };
     let nls = long_sizes.len();
     let long_txt = format!("{:?}", long_sizes);
+    // very long inputs (caps, selection / partial sorts, chunked sorting): n ends in four orders, optionally with one
+    // non-normal end
+    let vlong_sizes: Vec<usize> = if thorough { vec![300, 513, 1000, 1023, 1024, 1025, 1026, 1500, 2049, 4097, 5000, 8200] } else { vec![513, 1024, 1025, 1500, 2049] };
+    let nvl = vlong_sizes.len();
+    let vlong_txt = format!("{:?}", vlong_sizes);
+    let vlong = Phase {
+        name: "very-long-end-lists",
+        units: nvl,
+        split: 1,
+        body: Box::new(move |unit, cx| {
+            let n = vlong_sizes[unit];
+            let kind = cx.choose(3);
+            let order = cx.choose(4);
+            let asc: Vec<f64> = (0..n).map(|i| i as f64 * 0.5 - (n / 3) as f64 + 0.25).collect();
+            let mut ends: Vec<f64> = match order {
+                0 => asc.clone(),
+                1 => asc.iter().rev().cloned().collect(),
+                2 => (0..n).filter(|i| i % 2 == 1).chain((0..n).filter(|i| i % 2 == 0)).map(|i| asc[i]).collect(),
+                _ => (0..n).map(|i| asc[(i * 7919 + 13) % n]).collect(), // 7919 is prime and larger than every n here: a permutation
+            };
+            match cx.choose(5) {
+                0 => {}
+                1 => ends[0] = f64::NAN,
+                2 => ends[n / 2] = 0.0,
+                3 => ends[n - 1] = f64::INFINITY,
+                _ => { ends[n / 3] = f64::MAX; ends[n / 3 + 1] = f64::MAX; }
+            }
+            let mut bytes = Vec::with_capacity(n * 9 + 1 + 64);
+            for e in &ends {
+                bytes.push(1);
+                bytes.extend(e.to_bits().to_le_bytes());
+            }
+            bytes.push(0);
+            bytes.extend(std::iter::repeat(0x41u8).take(n + 40));
+            dispatch(&bytes, kind, cx)
+        }),
+        classes: class_names(true).into_iter().map(|(n, _)| (n, false)).collect(),
+        bounds: json!({"strings": format!("{} ends in ascending, descending, odds-then-evens and a fixed pseudo-random order; all normal, or with NaN first, 0 in the middle, +inf last, or MAX twice; followed by piece bytes", vlong_txt), "piece_types": "Poly3, PolyN, Tag"}),
+    };
     let long = Phase {
         name: "long-end-lists",
         units: nls,
@@ -359,7 +398,7 @@ pub fn check(thorough: bool, _seed: u64) -> Check {
         id: "C19",
         rule: "choice tree over byte strings: each leaf is one byte string fed to the real Arbitrary impl of Piecewise<T>; Ok values are evaluated at every x of A(ends) directly, through a fresh PiecewiseEvaluator (one history: ascending, descending, ascending again, then a zig-zag of jumps) and through evaluate_v; non-trivial = input decoding to a function with >= 2 pieces".into(),
         assumptions: vec!["arbitrary 1.4.2 decoding of Vec<f64> (used only to classify inputs, never for the verdict)".into()],
-        phases: vec![all_bytes, patterns, structured, long],
+        phases: vec![all_bytes, patterns, structured, long, vlong],
         extra: Default::default(),
         controls: vec![("reference decoder agrees with arbitrary on Vec<f64>", Box::new(|| {
             let b = [1u8, 0, 0, 0, 0, 0, 0, 0xf0, 0x3f, 3, 9, 9];
